@@ -53,7 +53,7 @@ def native_replay(b, fn, nd, wd):
         for r in b["remove"]:
             _run(["objcopy", "--weaken-symbol=" + r, ro])
         exe = os.path.join(wd, tag + ".exe")
-        _run(["gcc", "-O0", "-w", "-Wl,--unresolved-symbols=ignore-all", "-DREPLAY", "-DHARNESS_FN=" + fn] + flags + [b["harness_c"], os.path.join(VERIF, "cbmc", "verif_support.c"),
+        _run(["gcc", "-O0", "-w", "-no-pie", "-Wl,--unresolved-symbols=ignore-all", "-DREPLAY", "-DHARNESS_FN=" + fn] + flags + [b["harness_c"], os.path.join(VERIF, "cbmc", "verif_support.c"),
               os.path.join(VERIF, "cbmc", "replay_main.c"), ro, "-o", exe])
     except common.BuildError as ex:
         return None, str(ex)
